@@ -6,10 +6,10 @@ wt=$1; id=$2; caught=$3
 cd $wt || exit 2
 export PYTHONPATH=$wt/src
 t=$(timeout 900 /venv/bin/python -m pytest -q -p no:cacheprovider --timeout=900 2>&1 | tail -1)
-/venv/bin/python -W ignore out/demo.py > /tmp/demo_with.txt 2>&1; rc_with=$?
-git stash -q
-/venv/bin/python -W ignore out/demo.py > /tmp/demo_without.txt 2>&1; rc_without=$?
-git stash pop -q
+/venv/bin/python -W ignore out/demo.py > /tmp/demo_with_$id.txt 2>&1; rc_with=$?
+git diff -- src > /tmp/keep_$id.diff; git apply -R /tmp/keep_$id.diff
+/venv/bin/python -W ignore out/demo.py > /tmp/demo_without_$id.txt 2>&1; rc_without=$?
+git apply /tmp/keep_$id.diff; rm -f /tmp/keep_$id.diff
 echo "tests: $t | demo with change rc=$rc_with | without rc=$rc_without"
 mkdir -p /verif/seeded/$id
 cp out/patch.diff out/demo.py /verif/seeded/$id/
